@@ -11,7 +11,7 @@ import collections
 from hypothesis import strategies as st
 
 from vlib import gen_maps, pipeline
-from vlib.core import Sub, req
+from vlib.core import Sub, req, sut
 
 PROPERTY = "C05"
 RULE = ("generated CMAP sets with 2-8 queries, 1-3 references, -p in {1,2,3,5,8}; each input run in separate + best + one drawn "
@@ -80,6 +80,22 @@ def check(case):
             f"query {qid}: seeds have scores {sel_scores}; the {N} best of {len(allp)} peaks are {top}")
         if len(allp) > N:
             cl.append("more-peaks-than-count")
+        # "over all references and both strands": the seeding correlation recomputed here for every reference and strand
+        # (the project's own OpticalMap.getInitialAlignment with the program's generator and options) must not offer a
+        # better seed than the ones that were used
+        wc = sep.program.workflowCoordinator
+        gen, pargs = getattr(wc, "primaryGenerator", None), getattr(wc, "args", None)
+        if gen is not None and pargs is not None:
+            every = []
+            for ref in sep.program.referenceMaps:
+                for rev in (False, True):
+                    ia = sut(q.getInitialAlignment, ref, gen, pargs.minPeakDistance, pargs.peaksCount, rev)
+                    every += [float(p.score) for p in ia.peaks]
+            top_all = sorted(every, reverse=True)[:N]
+            got = sorted(sel_scores, reverse=True)
+            req(len(got) == len(top_all) and all(abs(a - b) <= 1e-9 * max(1.0, abs(b)) for a, b in zip(got, top_all)), "seeds-not-over-all-references-and-strands",
+                f"query {qid}: seeds have scores {got}; searching every reference on both strands offers {top_all} ({len(every)} peaks, {len(allp)} were dispatched)")
+            cl.append("seeds-recomputed")
         # best candidate
         rec = first_records.get(qid)
         if not cs:
